@@ -523,6 +523,8 @@ module Z :
   val eq_dec : z -> z -> bool
  end
 
+val z_lt_dec : z -> z -> bool
+
 val z_le_dec : z -> z -> bool
 
 val rev1 : 'a1 list -> 'a1 list
@@ -634,9 +636,13 @@ type ('a, 'c) elements = 'c -> 'a list
 
 val elements0 : ('a1, 'a2) elements -> 'a2 -> 'a1 list
 
+val not_dec : decision -> decision
+
 val and_dec : decision -> decision -> decision
 
 val or_dec : decision -> decision -> decision
+
+val impl_dec : decision -> decision -> decision
 
 val bool_eq_dec : (bool, bool) relDecision
 
@@ -645,6 +651,8 @@ val unit_eq_dec : (unit, unit) relDecision
 val prod_eq_dec :
   ('a1, 'a1) relDecision -> ('a2, 'a2) relDecision -> ('a1 * 'a2, 'a1 * 'a2)
   relDecision
+
+val uncurry_dec : ('a1 -> 'a2 -> decision) -> ('a1 * 'a2) -> decision
 
 val bool_decide : decision -> bool
 
@@ -930,6 +938,8 @@ module Coq_Z :
   val eq_dec : (z, z) relDecision
 
   val le_dec : (z, z) relDecision
+
+  val lt_dec : (z, z) relDecision
  end
 
 val list_filter : ('a1 -> decision) -> 'a1 list -> 'a1 list
@@ -962,6 +972,10 @@ val list_eq_dec0 : ('a1, 'a1) relDecision -> ('a1 list, 'a1 list) relDecision
 val list_eq_nil_dec : 'a1 list -> decision
 
 val noDup_dec : ('a1, 'a1) relDecision -> 'a1 list -> decision
+
+val forall_Exists_dec : ('a1 -> bool) -> 'a1 list -> bool
+
+val forall_dec : ('a1 -> decision) -> 'a1 list -> decision
 
 type 'a countable = { encode : ('a -> positive);
                       decode : (positive -> 'a option) }
@@ -1013,6 +1027,12 @@ val map_union : 'a1 merge -> 'a1 union
 
 val map_difference : 'a1 merge -> 'a1 difference
 
+val map_Forall_dec :
+  'a2 fMap -> (__ -> ('a1, __, 'a2) lookup) -> (__ -> 'a2 empty) -> (__ ->
+  ('a1, __, 'a2) partialAlter) -> 'a2 oMap -> 'a2 merge -> (__ -> ('a1, __,
+  'a2) finMapToList) -> ('a1, 'a1) relDecision -> ('a1 -> 'a3 -> decision) ->
+  'a2 -> decision
+
 type 'munit mapset' =
   'munit
   (* singleton inductive, whose constructor was Mapset *)
@@ -1053,6 +1073,8 @@ val psingleton_raw : positive -> 'a1 -> 'a1 pmap_raw
 val ppartial_alter_raw :
   ('a1 option -> 'a1 option) -> positive -> 'a1 pmap_raw -> 'a1 pmap_raw
 
+val pfmap_raw : ('a1 -> 'a2) -> 'a1 pmap_raw -> 'a2 pmap_raw
+
 val pto_list_raw :
   positive -> 'a1 pmap_raw -> (positive * 'a1) list -> (positive * 'a1) list
 
@@ -1076,7 +1098,11 @@ val plookup : (positive, 'a1, 'a1 pmap) lookup
 
 val ppartial_alter : (positive, 'a1, 'a1 pmap) partialAlter
 
+val pfmap : (__ -> __) -> __ pmap -> __ pmap
+
 val pto_list : (positive, 'a1, 'a1 pmap) finMapToList
+
+val pomap : (__ -> __ option) -> __ pmap -> __ pmap
 
 val pmerge :
   (__ option -> __ option -> __ option) -> __ pmap -> __ pmap -> __ pmap
@@ -1102,6 +1128,14 @@ val gmap_empty :
 val gmap_partial_alter :
   ('a1, 'a1) relDecision -> 'a1 countable -> ('a1, 'a2, ('a1, 'a2) gmap)
   partialAlter
+
+val gmap_fmap :
+  ('a1, 'a1) relDecision -> 'a1 countable -> (__ -> __) -> ('a1, __) gmap ->
+  ('a1, __) gmap
+
+val gmap_omap :
+  ('a1, 'a1) relDecision -> 'a1 countable -> (__ -> __ option) -> ('a1, __)
+  gmap -> ('a1, __) gmap
 
 val gmap_merge :
   ('a1, 'a1) relDecision -> 'a1 countable -> (__ option -> __ option -> __
@@ -1642,6 +1676,18 @@ type genesis = { g_cfg : config; g_balances : (addr * coin) list;
 val empty_state : config -> params -> state
 
 val init : genesis -> state
+
+val bIG : z
+
+val msg_sender : msg -> taddr
+
+val bal_small_b : state -> addr -> bool
+
+val par_ok_b : params -> bool
+
+val wf_op_c03_b : state -> op -> bool
+
+val wf_genesis_b : genesis -> bool
 
 val d_bank : state -> (addr * coin list) list
 
